@@ -70,7 +70,7 @@ Definition line_for (kind k : Z) : option (list (Q * Q)) :=
   if (kind =? 0)%Z then assocZ k leg_tables
   else option_map (cheb_line QO) (assocZ k cheb_tables).
 Definition rule_for (kind k : Z) : option (list (vec QO * Q)) :=
-  option_map (product_rule QO (disk_for kind)) (line_for kind k).
+  option_map (cyl_product_rule QO (disk_for kind)) (line_for kind k).
 (* k = round(max(min(mult * h / r, hi), lo)): the observed k must be a rounding of the exact value *)
 Definition k_ok (kind k : Z) (c : cyld) : bool :=
   let '(mult, lo, hi) := if (kind =? 0)%Z then (5, 5, 15)%Z else if (kind =? 1)%Z then (7, 7, 25)%Z else (11, 11, 35)%Z in
@@ -91,11 +91,11 @@ Definition line_forB (kind k : Z) : option (list (bigZ * bigZ)) :=
   if (kind =? 0)%Z then option_map bline (assocZ k leg_tables)
   else option_map (fun t => cheb_line BO (bline t)) (assocZ k cheb_tables).
 Definition rule_forB (kind k : Z) : option (list (vec BO * bigZ)) :=
-  option_map (product_rule BO (bdisk (disk_for kind))) (line_forB kind k).
+  option_map (cyl_product_rule BO (bdisk (disk_for kind))) (line_forB kind k).
 
 Fixpoint qsumq (l : list Q) : Q := match l with [] => 0 | x :: l' => Qred (x + qsumq l') end.
 
-(* weights as observed: all positive; their sum = (disk sum)(line sum) r^2 h / 2 to 1e-12 *)
+(* weights as observed: all positive; their sum = PI (line sum) r^2 h / 2 to 1e-12 (disk weights normalised to PI) *)
 Definition weights_check (c : cyld) (kind k : Z) (ws : list dy) : string :=
   if negb (k_ok kind k c) then "k-selection"
   else if negb (forallb (fun w => dltb d0 w) ws) then "weight-not-positive"
@@ -104,7 +104,7 @@ Definition weights_check (c : cyld) (kind k : Z) (ws : list dy) : string :=
        | Some line =>
            if negb (Nat.eqb (List.length ws) (List.length (disk_for kind) * List.length line)) then "rule-size"
            else
-             let want := qsumq (map snd (disk_for kind)) * qsumq (map snd line)
+             let want := qpi * qsumq (map snd line)
                          * (dyQ (cd_r c) * dyQ (cd_r c) * dyQ (cd_h c) / 2) in
              if rel_close (dyQ (dsum ws)) want (e10 12) then "" else "weight-sum"
        end.
@@ -159,7 +159,9 @@ Definition table_check (what : string) (kind k : Z) : string :=
   let small := fun x : Q => Qle_bool (Qabs x) (e10 12) in
   let t := disk_for kind in
   if String.eqb what "disk-sum" then
-    (if small (qsumf (fun d : Q * Q * Q => snd d) t / qpi - 1) then "" else "disk-weights-do-not-sum-to-pi")
+    (* the source normalises the disk weights; the raw table only has to be a disk rule to its tabulated precision *)
+    (if Qle_bool (Qabs (qsumf (fun d : Q * Q * Q => snd d) t / qpi - 1)) (if (kind =? 0)%Z then e10 12 else e10 6)
+     then "" else "disk-weights-do-not-sum-to-pi")
   else if String.eqb what "disk-moment1" then
     (if small (qsumf (fun d : Q * Q * Q => snd d * fst (fst d)) t) && small (qsumf (fun d : Q * Q * Q => snd d * snd (fst d)) t)
      then "" else "disk-first-moment")
